@@ -310,6 +310,71 @@ def sched_trip(case, comp, rechunk, workers, mode, sseed):
         hrun.rm(d)
 
 
+def fault_trip(case, comp, rechunk, use_pool, j):
+    """The j-th chunk write fails (OSError from save_file, as on a full disk). Whatever the saver then leaves
+    behind, the completion marker must agree with the files: data that a reader is offered as complete (final
+    directory name, metadata without an exception entry) must have every listed chunk file and the written rows."""
+    dt, a, chunks = build(case)
+    d = hrun.mktemp("c03f-")
+    out = {"errs": [], "exc": None, "fired": False, "raised": False, "n": len(a)}
+    pool = ThreadPoolExecutor(2) if use_pool else None
+    orig_save = strax.save_file
+    calls = [0]
+
+    def failing_save(f, data, compressor="zstd"):
+        calls[0] += 1
+        if calls[0] == j + 1:
+            out["fired"] = True
+            raise OSError(28, "No space left on device (injected)")
+        return orig_save(f, data, compressor)
+
+    try:
+        sfe = strax.DataDirectory(d)
+        key = strax.DataKey("0", "dd", {"dd": ("P", "0", {})})
+        md = dict(run_id="0", data_type="dd", data_kind="dd", dtype=np.dtype(dt), compressor=comp,
+                  lineage=key.lineage, chunk_target_size_mb=chunks[0].target_size_mb)
+        strax.save_file = failing_save
+        try:
+            with common.quiet():
+                saver = sfe.saver(key, md)
+                saver.save_from((c for c in chunks), rechunk=rechunk, executor=pool)
+        except Exception:  # noqa: BLE001
+            out["raised"] = True
+        finally:
+            strax.save_file = orig_save
+            if pool:
+                pool.shutdown(wait=True)
+        if not out["fired"]:
+            return out
+        dirname = os.path.join(d, str(key))
+        if os.path.isdir(dirname):
+            import json as _json
+            mdp = [x for x in os.listdir(dirname) if x.endswith("metadata.json")]
+            meta = _json.load(open(os.path.join(dirname, mdp[0]))) if mdp else None
+            if meta is not None and "exception" not in meta and meta.get("writing_ended"):
+                # offered as complete: then it has to be complete
+                missing = [c["filename"] for c in meta.get("chunks", [])
+                           if c.get("filename") and not os.path.exists(os.path.join(dirname, c["filename"]))]
+                if missing:
+                    out["errs"].append(("marker", f"data marked complete after a failed chunk write, but files {missing[:3]} are missing"))
+                else:
+                    try:
+                        with common.quiet():
+                            got = resolve(list(strax.DataDirectory(d).loader(key)))
+                        g = np.concatenate([c.data for c in got]) if got else a[:0]
+                        if g.tobytes() != a.tobytes():
+                            out["errs"].append(("marker", f"data marked complete after a failed chunk write holds {len(g)} of {len(a)} rows"))
+                    except Exception as e:  # noqa: BLE001
+                        out["errs"].append(("marker", f"data marked complete after a failed chunk write cannot be loaded: {e!r}"[:300]))
+        return out
+    except Exception as e:  # noqa: BLE001
+        out["exc"] = e
+        return out
+    finally:
+        strax.save_file = orig_save
+        hrun.rm(d)
+
+
 def units(tier, seed):
     q = tier == "quick"
     n = 16 if q else 64
@@ -386,6 +451,30 @@ def run_unit(u):
                     if len(res["violations"]) < 20:
                         res["violations"].append({"sig": {"kind": kind, "rechunk": False, "save_pool": "forked"},
                                                   "what": f"{kind}: {e}", "case": dict(case, forked_combo={"compressor": comp})})
+            # a failing chunk write at every position, serial and pool: completion marker vs files
+            nwr = len(case["cuts"])
+            fcomp = COMPRESSORS[idx % len(COMPRESSORS)]
+            for rechunk in (False, True):
+                for use_pool in (False, True):
+                    for j in range(0, nwr + 1):
+                        o = fault_trip(case, fcomp, rechunk, use_pool, j)
+                        if not o["fired"]:
+                            break
+                        res["evaluations"] += 1
+                        cnt["failed_write_trips"] = cnt.get("failed_write_trips", 0) + 1
+                        if o["raised"]:
+                            cnt["failed_write_raised"] = cnt.get("failed_write_raised", 0) + 1
+                        res["hashes"].append(common.chash([ch, "fault", rechunk, use_pool, j]))
+                        combo = {"compressor": fcomp, "rechunk": rechunk, "save_pool": use_pool, "failing_write": j}
+                        if o["exc"] is not None and len(res["violations"]) < 20:
+                            sig = {"kind": "exception", "rechunk": rechunk, "save_pool": "fault"}
+                            sig.update(common.exc_sig(o["exc"]))
+                            res["violations"].append({"sig": sig, "what": f"failed-write harness error: {o['exc']!r}"[:500],
+                                                      "case": dict(case, fault_combo=combo)})
+                        for kind, e in o["errs"][:2]:
+                            if len(res["violations"]) < 20:
+                                res["violations"].append({"sig": {"kind": kind, "rechunk": rechunk, "save_pool": use_pool},
+                                                          "what": f"{kind}: {e}", "case": dict(case, fault_combo=combo)})
             if not res["samples"]:
                 res["samples"].append(dict(case, combos="rechunk x workers 1..3 x seeded random / PCT schedules of the pool"))
         return res
@@ -430,6 +519,18 @@ def replay(case):
     if "forked_combo" in case:
         base = {k: v for k, v in case.items() if k != "forked_combo"}
         o = forked_trip(base, case["forked_combo"]["compressor"])
+        out = []
+        if o["exc"] is not None:
+            sig = {"kind": "exception"}
+            sig.update(common.exc_sig(o["exc"]))
+            out.append({"sig": sig, "what": repr(o["exc"]), "case": case})
+        for kind, e in o["errs"]:
+            out.append({"sig": {"kind": kind}, "what": e, "case": case})
+        return out
+    if "fault_combo" in case:
+        c = case["fault_combo"]
+        base = {k: v for k, v in case.items() if k != "fault_combo"}
+        o = fault_trip(base, c["compressor"], c["rechunk"], c["save_pool"], c["failing_write"])
         out = []
         if o["exc"] is not None:
             sig = {"kind": "exception"}
